@@ -5,7 +5,39 @@ from .values import NOT_IMPLEMENTED
 from .explore import Unsupported
 
 
+def _conc(v):
+    """concrete Python number of a concrete value (bool/int/float), else None"""
+    if isinstance(v, bool):
+        return int(v)
+    if isinstance(v, (int, float)):
+        return v
+    if isinstance(v, EnumV) and v.cls.is_intenum and isinstance(v.v, int):
+        return v.v
+    return None
+
+
 def real_binop(interp, t, a, b):
+    import ast
+    x, y = _conc(a), _conc(b)
+    if x is not None and y is not None:
+        # concrete operands: CPython's own float arithmetic is the semantics
+        try:
+            if t is ast.Div:
+                return x / y
+            if t is ast.Add:
+                return x + y
+            if t is ast.Sub:
+                return x - y
+            if t is ast.Mult:
+                return x * y
+            if t is ast.FloorDiv:
+                return x // y
+            if t is ast.Mod:
+                return x % y
+            if t is ast.Pow:
+                return x ** y
+        except ZeroDivisionError:
+            interp.throw("ZeroDivisionError", "division by zero")
     raise Unsupported("float arithmetic")
 
 
@@ -22,14 +54,22 @@ def real_abs(interp, v):
 
 
 def trunc(interp, v):
+    if isinstance(v, float):
+        return int(v)
     raise Unsupported("float to int")
 
 
 def to_float(interp, v):
+    c = _conc(v)
+    if c is not None:
+        return float(c)
     raise Unsupported("float()")
 
 
 def round_(interp, v, nd):
+    c = _conc(v)
+    if c is not None and (nd is None or isinstance(nd, int)):
+        return round(c) if nd is None else round(c, nd)
     raise Unsupported("round()")
 
 
